@@ -296,3 +296,49 @@ Proof.
     split; [reflexivity|]. split; [vm_compute; reflexivity|].
     apply Hn. vm_compute. exact I.
 Qed.
+
+(** the remaining components of [lph_okb] are what the chain invariant [cinv] (part of INV, on which every
+    totality proof rests) says of each proposal held by the voting view: dropping one of them lets a local
+    header into the voting view that falsifies [cinv] (for "block hash correct" this is
+    [cinv_local_ph_refuted] of Proofs/MirrorActInv.v).  Whether such a header can also make a later operation
+    panic is not decided here. *)
+Definition n_vs_bad : valset := mk_valset [7] [1] [1] [2] false.
+Definition n_ops_bad_hash : list mop :=
+  [MEnterK 1 0 (Some 7); MActPH (mk_ph (mk_hdr [9] false 1 [] empty_cproof ex_vs ex_vs) 0 (Some 7) (SProposal 7 [5] 0) [5])].
+Definition n_ops_bad_next : list mop :=
+  [MEnterK 1 0 (Some 7); MActPH (ex_ph ex_vs n_vs_bad)].
+Definition n_ops_bad_prev : list mop :=
+  [MEnterK 1 0 (Some 7); MActPH (ex_ph ex_vs ex_vs); MActPrecommit [9] (SVote 7 KPrecommit 1 0 [9]);
+   MEnterK 2 0 (Some 7);
+   MActPH (mk_ph (mk_hdr [8] true 2 [6; 6] (mk_cproof 0 [1] [([9], [sg7 KPrecommit 1 0 [9]])]) ex_vs ex_vs) 0 (Some 7) (SProposal 7 [6] 0) [6])].
+
+Theorem local_ph_components_needed_for_cinv :
+  (exists s p, mreachable_0 1 ex_vs s /\ In p (v_phs (k_vot (ms_k s))) /\
+     hd_ok (ph_hdr p) = false /\ ~ cinv 1 ex_vs (ms_k s)) /\
+  (exists s p, mreachable_0 1 ex_vs s /\ In p (v_phs (k_vot (ms_k s))) /\
+     vs_ok (hd_next (ph_hdr p)) = false /\ ~ cinv 1 ex_vs (ms_k s)) /\
+  (exists s p ch, mreachable_0 1 ex_vs s /\ In p (v_phs (k_vot (ms_k s))) /\
+     k_chdr (ms_k s) = Some ch /\ hd_height (ph_hdr p) = 2 /\ hd_prev (ph_hdr p) <> hd_hash ch /\
+     ~ cinv 1 ex_vs (ms_k s)).
+Proof.
+  split; [|split].
+  - eexists (mstate_after0 n_ops_bad_hash), _.
+    assert (Hin : In (mk_ph (mk_hdr [9] false 1 [] empty_cproof ex_vs ex_vs) 0 (Some 7) (SProposal 7 [5] 0) [5])
+                     (v_phs (k_vot (ms_k (mstate_after0 n_ops_bad_hash))))) by (vm_compute; left; reflexivity).
+    split; [apply mstate_after0_reachable; vm_compute; reflexivity|]. split; [exact Hin|]. split; [reflexivity|].
+    intros (_&_&_&_&_&_&_&_&_&Hphs&_). destruct (Hphs _ (or_introl Hin)) as (_&Hok&_). discriminate Hok.
+  - eexists (mstate_after0 n_ops_bad_next), _.
+    assert (Hin : In (ex_ph ex_vs n_vs_bad) (v_phs (k_vot (ms_k (mstate_after0 n_ops_bad_next)))))
+      by (vm_compute; left; reflexivity).
+    split; [apply mstate_after0_reachable; vm_compute; reflexivity|]. split; [exact Hin|]. split; [reflexivity|].
+    intros (_&_&_&_&_&_&_&_&_&Hphs&_). destruct (Hphs _ (or_introl Hin)) as (_&_&Hok&_). discriminate Hok.
+  - eexists (mstate_after0 n_ops_bad_prev), _, (ex_hdr ex_vs ex_vs).
+    assert (Hin : In (mk_ph (mk_hdr [8] true 2 [6; 6] (mk_cproof 0 [1] [([9], [sg7 KPrecommit 1 0 [9]])]) ex_vs ex_vs) 0 (Some 7) (SProposal 7 [6] 0) [6])
+                     (v_phs (k_vot (ms_k (mstate_after0 n_ops_bad_prev))))) by (vm_compute; left; reflexivity).
+    assert (Hch : k_chdr (ms_k (mstate_after0 n_ops_bad_prev)) = Some (ex_hdr ex_vs ex_vs)) by (vm_compute; reflexivity).
+    split; [apply mstate_after0_reachable; vm_compute; reflexivity|]. split; [exact Hin|].
+    split; [exact Hch|]. split; [reflexivity|]. split; [vm_compute; discriminate|].
+    intros (Hi1&_&_&_&_&_&_&_&_&Hphs&_). destruct (Hphs _ (or_introl Hin)) as (_&_&_&_&Hprev).
+    destruct Hprev as (ch&E1&E2); [rewrite Hi1; vm_compute; discriminate|].
+    rewrite Hch in E1. inversion E1; subst ch. vm_compute in E2. discriminate E2.
+Qed.
